@@ -79,6 +79,11 @@ def extract(path=CRYSTAL_PY):
         for n in ast.walk(fn):
             if isinstance(n, ast.Call):
                 f = n.func
+                if isinstance(f, ast.Name) and f.id == "delattr" and len(n.args) > 1 and _is_self(n.args[0]) and isinstance(n.args[1], ast.Name):
+                    g = guarded.get(id(n))
+                    for v in loopvals.get(n.args[1].id, []):
+                        if str(v).startswith("_"):
+                            (mi.cond.setdefault(g, {"drops": set(), "drops_cif": False})["drops"] if g else mi.cache_drops).add(v)
                 if isinstance(f, ast.Name) and f.id in ("hasattr", "getattr", "setattr", "delattr") and n.args and _is_self(n.args[0]) \
                         and len(n.args) > 1 and isinstance(n.args[1], ast.Constant) and isinstance(n.args[1].value, str):
                     attr = n.args[1].value
@@ -119,7 +124,11 @@ def extract(path=CRYSTAL_PY):
                             if ch[0].startswith("_"):
                                 mi.cache_drops.add(ch[0])
                             if ch[0] == "properties" and isinstance(tt, ast.Subscript) and isinstance(tt.slice, ast.Constant) and tt.slice.value == "cif_data":
-                                mi.drops_cif = True
+                                g = guarded.get(id(n))
+                                if g:
+                                    mi.cond.setdefault(g, {"drops": set(), "drops_cif": False})["drops_cif"] = True
+                                else:
+                                    mi.drops_cif = True
                             continue
                         if ch[0] in STATE_FIELDS:
                             mi.state_writes.add(ch[0])
@@ -454,43 +463,48 @@ def run(ctx):
             else:
                 ctx.replays.append({"key": key, "history": seq, "reproduced": False,
                                     "detail": "model-level stale answer not observable on the real code (abstraction coarser than the code)"})
-    # ---- witness histories generated from the model, executed on the real code (validates the abstraction)
+    # ---- witness histories executed on the real code (validates the abstraction): for every state-changing operation the
+    # patterns  query, change, query  and  change, query, change-back, query  on a crystal loaded from a file and on one
+    # built in memory, plus solver-generated histories of length 4 (random model enumeration)
     ops = sorted(queries) + sorted(mutators) + ["deepcopy"]
-    runnable = [o for o in ops if o in QUERY_ARGS or o in mutators or o == "deepcopy"]
+    runnable_q = [q_ for q_ in QUERY_ARGS if q_ in queries]
+    rng = np.random.default_rng(ctx.seed)
+    wit = []
+    for mu in sorted(mutators):
+        for ff in (True, False):
+            q1, q2 = (runnable_q[int(rng.integers(len(runnable_q)))] for _ in range(2))
+            wit.append(([q1, mu, "unit_cell_atoms" if "unit_cell_atoms" in runnable_q else q2], ff))
+            wit.append(([mu, q1, "deepcopy", mu, "unit_cell_molecules" if "unit_cell_molecules" in runnable_q else q2, "to_cif_string"], ff))
     sol = z3.Solver()
     K = 4
     op = [z3.Int("w%d" % i) for i in range(K)]
+    runnable = runnable_q + sorted(mutators) + ["deepcopy"]
     for i in range(K):
         sol.add(z3.Or([op[i] == ops.index(o) for o in runnable]))
-    sol.add(z3.Or([z3.And(op[i] == ops.index(mu), op[j] == ops.index(q_)) for mu in mutators for q_ in QUERY_ARGS if q_ in queries
-                   for i in range(K) for j in range(i + 1, K)]))
-    sol.add(z3.Or([op[0] == ops.index(q_) for q_ in QUERY_ARGS if q_ in queries]))   # a cache is filled before the change
-    nw = 6 if ctx.tier == "quick" else 40
-    rng = np.random.default_rng(ctx.seed)
+    sol.add(z3.Or([z3.And(op[i] == ops.index(mu), op[j] == ops.index(q_)) for mu in mutators for q_ in runnable_q for i in range(K) for j in range(i + 1, K)]))
     sol.set("random_seed", int(ctx.seed) % 1000)
-    wit = []
-    t0 = time.time()
-    while len(wit) < nw and str(sol.check()) == "sat":
+    extra = 4 if ctx.tier == "quick" else 40
+    while extra > 0 and str(sol.check()) == "sat":
         mdl = sol.model()
         seq = [ops[mdl.eval(op[i], model_completion=True).as_long()] for i in range(K)]
         sol.add(z3.Or([op[i] != ops.index(seq[i]) for i in range(K)]))
-        # diversify: forbid the same (mutator, following query) pair twice
-        mu_i = next(i for i, o in enumerate(seq) if o in mutators)
-        wit.append(seq)
-        if len(wit) % 2 == 0:
-            sol.add(op[0] != ops.index(seq[0]))
-    nbad = 0
-    for seq in wit:
-        bad = run_history(seq, from_file=(len(wit) % 2 == 0))
-        ctx.fidelity.append({"name": "witness history " + " -> ".join(seq), "ok": not bad, "detail": bad[:2], "verdict_relevant": True})
-        if bad and not reported:
+        sol.add(op[0] != ops.index(seq[0]))
+        wit.append((seq, extra % 2 == 0))
+        extra -= 1
+    t0 = time.time()
+    import multiprocessing as mp
+    with mp.get_context("fork").Pool(min(16, len(wit))) as pool:
+        outs = pool.starmap(run_history, [(seq, "r3c", ff) for seq, ff in wit])
+    for (seq, ff), bad in zip(wit, outs):
+        ctx.fidelity.append({"name": "witness history (%s) " % ("from file" if ff else "in memory") + " -> ".join(seq), "ok": not bad, "detail": bad[:2], "verdict_relevant": True})
+        if bad:
             mut = next(o for o in seq if o in mutators)
             key = "hist:%s:trace" % mut
-            if key not in reported:
+            if key not in reported and not any(k.startswith("hist:%s" % mut) for k in reported):
                 reported.add(key)
-                ctx.violation(key, "history %s: %s" % (" -> ".join(seq), bad[0]), {"history": seq, "from_file": len(wit) % 2 == 0}, replay_history)
-    ctx.record("witness histories from the model executed on the real code (%d histories of length %d with a state change followed by queries)" % (len(wit), K),
-               "holds" if not any(not f["ok"] for f in ctx.fidelity if f["name"].startswith("witness")) else "counterexample",
-               seconds=time.time() - t0, nontrivial=True, sample=wit[:3])
+                ctx.violation(key, "history %s (%s): %s" % (" -> ".join(seq), "crystal loaded from a file" if ff else "crystal built in memory", bad[0]),
+                              {"history": seq, "from_file": ff}, replay_history)
+    ctx.record("witness histories executed on the real code (%d histories: every state change x {query,change,query; change,query,copy,change back,query,export} x {from file, in memory} + solver-generated)" % len(wit),
+               "holds" if not any(outs) else "counterexample", seconds=time.time() - t0, nontrivial=True, sample=[w[0] for w in wit[:3]])
     if not reported and any(q["verdict"] == "counterexample" for q in ctx.queries):
         ctx.mark_inconclusive("bmc", "the extracted model admits stale histories that the real code does not exhibit on the test structure")
